@@ -70,6 +70,14 @@ func specs(tier string) []spec {
 			out = append(out, spec{fmt.Sprintf("d%d/epoch-boundary-fork", d), pfx3, a3, b3})
 		}
 	}
+	// tick-boundary gap: on A the rest of the fork point's election tick is missed (A continues in the next tick, so for
+	// this node the tick, and in the first variant the epoch, is finished and ends with the fork point), while B fills
+	// the slots A skipped: the statistics of a tick that looked finished change although its last momentum stays on the chain
+	for i, pfx := range [][]ops.Op{prefix, append(append([]ops.Op{}, prefix...), M, M, M)} {
+		a := []ops.Op{{K: "T", A: 1, B: 2, V: 7}, {K: "Mt"}}
+		b := []ops.Op{{K: "T", A: 4, B: 2, V: 9}, M, {K: "T", A: 4, B: 3, V: 9}, M}
+		out = append(out, spec{fmt.Sprintf("d1/tick-gap-%s", []string{"epoch-end", "mid-epoch"}[i]), pfx, a, b})
+	}
 	// long common prefix: views more than 360 momentums behind the frontier live in the store's second view cache
 	longPrefix := append(append([]ops.Op{}, prefix...), rep(M, 362)...)
 	for _, d := range []int{1, 2} {
@@ -141,6 +149,15 @@ func build(c *xs.Ctx, sp spec) *built {
 	}
 	if pb.Height() <= pa.Height() {
 		panic("spec: B must be strictly longer than A")
+	}
+	if strings.Contains(sp.Name, "tick-gap") {
+		tip := pa.Detailed(bt.prefixH).Momentum.Timestamp
+		if gap := pa.Detailed(bt.prefixH + 1).Momentum.Timestamp.Sub(*tip); gap < 30*time.Second {
+			panic(fmt.Sprintf("spec %s: branch A does not skip the rest of the tick (gap %v)", sp.Name, gap))
+		}
+		if gap := pb.Detailed(bt.prefixH + 1).Momentum.Timestamp.Sub(*tip); gap != 10*time.Second {
+			panic(fmt.Sprintf("spec %s: branch B does not fill the next slot (gap %v)", sp.Name, gap))
+		}
 	}
 	tx, err = pa.Generate(&nom.AccountBlock{BlockType: nom.BlockTypeUserSend, Address: ops.Users[8].Address, ToAddress: ops.Users[7].Address,
 		TokenStandard: types.QsrTokenStandard, Amount: ops.Big(17)})
